@@ -3,7 +3,7 @@
 import json, subprocess, os
 ROOT = os.path.dirname(os.path.dirname(os.path.abspath(__file__)))
 
-SIM = "deterministic simulation: the whole nomt crate under a seeded scheduler (shuttle) with a simulated disk; seeded search over histories, schedules and fault plans"
+SIM = "deterministic simulation: the whole nomt crate under a seeded scheduler (shuttle) with a simulated disk; seeded search over histories, schedules and fault plans (crash / power-loss images, failing, short and interrupted I/O); the replay files of earlier findings run first as a regression corpus"
 
 CHECKS = {
  "C01": ("exploration", "3.C01", "seeded histories (commits, overlays, rollbacks, reopens; adversarial key geometry; value sizes 0..100k straddling the leaf/overflow limits) executed against the real crate under the controlled scheduler; after every step every touched key is read directly and through a fresh session and compared with a BTreeMap model", "model = BTreeMap; values are a fixed function of (key, stamp) so each read is attributable to one write; sampling, not proof"),
